@@ -1,5 +1,5 @@
 """C04 — MySQL: emitted DDL is executable in order and leaves the declared schema; MODIFY keeps the column's
-other attributes.  Proofs (coq/mysql/Properties/C04.v) + K-sql(mysql) / K-apply evaluated inside Coq + oracle
+other attributes (AUTO_INCREMENT and COMMENT included since fix N1).  Proofs (coq/mysql/Properties/C04.v) + K-sql(mysql) / K-apply evaluated inside Coq + oracle
 O-C04 (the MySQL catalog MODEL run over the statements the implementation emitted) + known-finding classes."""
 import json, os, shutil
 import vflib, mysqlrun
@@ -23,7 +23,7 @@ ENGINE_RULES = [
     "M6 ADD COLUMN: name new (1060)", "M7 DROP COLUMN: exists (1091), not the last column (1090), in no foreign key of the table (1828), not referenced (1829); "
     "the column leaves every key, empty keys vanish, key names unchanged",
     "M8 RENAME COLUMN: source exists, target free; keys and foreign keys on both sides follow",
-    "M9 MODIFY COLUMN: column exists; it becomes EXACTLY the definition (NOT NULL / DEFAULT / AUTO_INCREMENT not restated are lost); PRIMARY KEY parts must stay NOT NULL (1171)",
+    "M9 MODIFY COLUMN: column exists; it becomes EXACTLY the definition (NOT NULL / DEFAULT / AUTO_INCREMENT not restated are lost; an AUTO_INCREMENT column must be a key, 1075); PRIMARY KEY parts must stay NOT NULL (1171)",
     "M10 foreign key: name unique per schema (1826), columns exist, target table / columns exist, target has a key with the columns leftmost (1822); "
     "an index named like the constraint is created implicitly if no key serves it; M-GEN such an index is dropped when an explicit key covering it is created",
     "M11 DROP FOREIGN KEY: exists (1091); the implicit index stays", "M12 CHECK names unique per schema (3822); DROP CHECK: exists (3821)",
@@ -81,25 +81,26 @@ def judge(chk, res, tier, seed, replaying=False):
         "C04_modify_preserves": {"modify_actions_on_existing_columns": st.get("modify_actions"), "under_its_hypothesis": st.get("modify_under_hypothesis"),
                                  "on_auto_increment_columns": st.get("modify_on_autoinc_column")},
         "C04_modify_restates_all": {"modify_actions_on_existing_columns": st.get("modify_all_total"),
-                                    "before(three attributes, C04_modify_preserves)": st.get("modify_under_hypothesis"),
-                                    "after(all six attributes at once)": st.get("modify_under_restates_all"),
-                                    "excluded_on_auto_increment_columns": st.get("modify_on_autoinc_column"),
-                                    "excluded_comment_lost(C04-comment-lost-on-modify)": st.get("modify_comment_lost"),
+                                    "under_C04_modify_preserves(type, nullability, default)": st.get("modify_under_hypothesis"),
+                                    "under_C04_modify_restates_all(all six attributes at once)": st.get("modify_under_restates_all"),
+                                    "on_the_auto_increment_key_column_with_a_type_that_supports_it": st.get("modify_autoinc_supported"),
+                                    "of_which_AUTO_INCREMENT_restated_in_the_implementation_sql": st.get("modify_autoinc_restated_in_impl_sql"),
+                                    "type_nullable_default_changes_on_commented_columns": st.get("modify_comment_lost"),
                                     "of_which_MODIFY_without_COMMENT_in_the_implementation_sql": st.get("modify_comment_lost_confirmed_on_impl_sql")},
         "outside_every_known_class": {"judged_migrations": st.get("outside_known_classes"), "holding": st.get("outside_and_holding"),
-                                      "proved_as_a_whole_by_a_plan_level_theorem": {"before_round5": st.get("outside_whole_proved_r3"), "after": st.get("outside_whole_proved_now")}},
+                                      "proved_as_a_whole_by_a_plan_level_theorem": {"with_the_round3_hypotheses_of_DeleteColumn_RenameColumn": st.get("outside_whole_proved_r3"), "now": st.get("outside_whole_proved_now")}},
         "sim_mysql_lemmas": {"actions_in_judged_migrations": st.get("actions_in_judged_migrations"),
                              "under_a_proved_lemma": st.get("actions_under_a_proved_sim_lemma"),
                              "judged_migrations": st.get("judged_migrations"),
                              "migrations_proved_as_a_whole(C04_Sim_plan_proved_kinds)": st.get("migrations_fully_under_sim_lemmas"),
-                             "before_round5": {"under_a_proved_lemma": st.get("r3_actions_under_a_proved_sim_lemma"),
+                             "with_the_round3_hypotheses_of_DeleteColumn_RenameColumn": {"under_a_proved_lemma": st.get("r3_actions_under_a_proved_sim_lemma"),
                                                "migrations_proved_as_a_whole": st.get("r3_migrations_fully_under_sim_lemmas")},
                              "DeleteColumn": {"actions": st.get("delete_column_actions"), "before": st.get("delete_column_r3"), "after": st.get("delete_column_now")},
                              "RenameColumn": {"actions": st.get("rename_column_actions"), "before": st.get("rename_column_r3"), "after": st.get("rename_column_now")},
                              "pending_set_invariant": {"migrations_not_whole_by_Sim_plan": st.get("not_whole_by_Sim_plan"),
                                                        "of_which_proved_by_C04_SimP_plan_equiv": st.get("whole_by_SimP_plan_equiv"),
                                                        "of_which_only_by_C04_SimP_plan_checked": st.get("whole_by_SimP_plan_checked_only")},
-                             "proved_kinds": "all 13 action kinds under decidable hypotheses (sim_proved_for; sim_proved_for_r3 = the hypotheses before round 5); one-step lemmas do not cover: the known-finding classes, inputs outside A1-A7, the re-quoted default of ModifyColumnType (equal only up to norm_default), and AddColumn with an inline constraint + its later AddConstraint (covered as whole plans by the pending-set invariant)"}}
+                             "proved_kinds": "all 13 action kinds under decidable hypotheses (sim_proved_for; sim_proved_for_r3 = the hypotheses before round 5); one-step lemmas do not cover: the open known-finding classes, inputs outside A1-A7, the re-quoted default of ModifyColumnType (equal only up to norm_default), and AddColumn with an inline constraint + its later AddConstraint (covered as whole plans by the pending-set invariant)"}}
     chk.cov["not_judged"] = dict(skipped)
     # open findings: the stored witness must still fail on the implementation and be explained by its own class
     for k in [k for k in known if k.get("status") == "open"]:
